@@ -5,21 +5,14 @@
 //!   harness replay <file>
 //!   harness selftest                                                     (reference codec cross-validation)
 
-mod bridge;
-mod ctx;
-mod gen;
-mod model;
-mod monitor;
-mod props;
-mod refdns;
-mod rng;
-mod selftest;
+use verif_harness::*;
 
 use ctx::{Ctx, Tier};
 use serde_json::{json, Value};
 use std::collections::{BTreeMap, HashSet};
 use std::io::Write;
 use std::path::PathBuf;
+
 use std::process::{Command, Stdio};
 use std::time::{Duration, Instant};
 
@@ -68,6 +61,12 @@ fn main() {
         "shard" => run_shard(&args[2..]),
         "replay" => run_replay(&args[2..]),
         "selftest" => selftest::main(),
+        "noop" => 0,
+        "dump-corpus" => {
+            let n = tools::dump_corpus(std::path::Path::new(&args[2]), parse_seed(&args));
+            println!("{} files", n);
+            0
+        }
         _ => {
             eprintln!("unknown subcommand");
             2
@@ -375,6 +374,37 @@ fn run_parent(args: &[String]) -> i32 {
         results.push(res);
     }
 
+    // ---- tool sub-runs (thorough tier; VERIF_TOOLS=1 forces them, VERIF_TOOLS=0 disables them) ------------------
+    let mut tool_summaries: Vec<Value> = Vec::new();
+    let mut subrun_inconclusive: Vec<String> = Vec::new();
+    let tools_on = match std::env::var("VERIF_TOOLS").ok().as_deref() {
+        Some("0") => false,
+        Some("1") => true,
+        _ => tier == Tier::Thorough,
+    };
+    if tools_on {
+        let (miri, fuzz, valgrind) = props::tools_for(&prop);
+        let mut outs: Vec<tools::ToolOut> = Vec::new();
+        if miri {
+            outs.push(tools::run_miri(&prop, tier, seed, &root, jobs.min(16), &tmp));
+        }
+        if let Some(target) = fuzz {
+            let secs = std::env::var("VERIF_FUZZ_SECS").ok().and_then(|s| s.parse().ok()).unwrap_or(tier.pick(45, 180));
+            outs.push(tools::run_fuzz(&prop, target, tier, seed, &root, &tmp, secs));
+        }
+        if valgrind {
+            outs.push(tools::run_valgrind_c14(tier, seed, &root, &tmp));
+        }
+        for o in outs {
+            for j in o.shard_jsons {
+                results.push(ShardRes { json: Some(j), status: "tool-subrun ok".into(), hashes: vec![] });
+            }
+            extra_violations.extend(o.violations);
+            subrun_inconclusive.extend(o.inconclusive);
+            tool_summaries.extend(o.summary);
+        }
+    }
+
     // merge
     let mut evals = 0u64;
     let mut counters: BTreeMap<String, u64> = BTreeMap::new();
@@ -541,6 +571,8 @@ fn run_parent(args: &[String]) -> i32 {
             "shards": results.iter().map(|r| r.status.clone()).collect::<Vec<_>>(),
             "notes": notes,
             "inconclusive": inconclusive,
+            "tool_runs": tool_summaries,
+            "inconclusive_tool_subruns": subrun_inconclusive,
             "verdict": verdict,
             "violation_list": viol_summaries,
         },
@@ -572,6 +604,12 @@ fn run_parent(args: &[String]) -> i32 {
     }
     for n in &inconclusive {
         println!("INCONCLUSIVE: {}", n);
+    }
+    for t in &tool_summaries {
+        println!("  tool {}", t);
+    }
+    for n in &subrun_inconclusive {
+        println!("INCONCLUSIVE-SUBRUN: {}", n.chars().take(600).collect::<String>());
     }
     for l in &lines {
         println!("{}", l);
